@@ -332,6 +332,8 @@ def call(fn, *a, **k):
     """-> (value, None) or (None, exception)"""
     try:
         return fn(*a, **k), None
+    except HarnessError:
+        raise
     except Exception as e:  # noqa
         return None, e
 
